@@ -17,4 +17,6 @@ View   == <<nd, up, net, lossy, pf, nf, clk, fresh, [mon EXCEPT !.n = 0, !.at = 
 MonOK  == mon.bad = ""
 \* non-vacuity: the system does converge (reach a state in which both listeners report the established state)
 NeverConverges == ~(mon.lastW = "offered" /\ mon.lastS = "subscribed" /\ nf = MaxFaults)
+\* non-vacuity of the two-subscription configuration: the withdrawal does happen
+NeverUnfind == ~(\E i \in DOMAIN obs : obs[i].k = "in" /\ obs[i].op = "fault" /\ obs[i].kind = "unfind")
 =============================================================================
